@@ -43,6 +43,9 @@ const ATOMS: &[(&str, &str)] = &[
     ("mixed-array", "MX"),
     ("mixed-array-literal", "[1, \"a\"]"),
     ("mixed-matrix", "MM"),
+    // blocks over constants: a number for the checker, but not a primitive the transformer can evaluate
+    ("constant-block", "max { 1, 2 }"),
+    ("constant-scoped-block", "sum(q in 0..2) { q }"),
 ];
 /// atoms only meaningful inside a scope that binds them
 const SCOPED_ATOMS: [(&str, &str); 6] = [("node-var", "nd"), ("edge-var", "ed"), ("tuple-var", "tp"), ("iter-int", "k"), ("iter-elem", "v"), ("shadowed-const", "A")];
@@ -236,6 +239,31 @@ const ORDER_SHAPES: [(&str, &str, &str, &str); 14] = [
     ("single-set", "min sum(i in {E}) { x } + sum(h in 0..1, j in 0..1) { x }", "x >= 0", ""),
 ];
 
+/// every (template x atom), scoped and binding-order program of this engine, for the totality check of C18:
+/// well-typed or not, each is an input the whole pipeline has to answer without panicking
+pub fn programs_for_totality() -> Vec<(String, String)> {
+    let mut out = vec![];
+    for (tname, obj, cons, extra) in TEMPLATES {
+        for (aname, atext) in ATOMS.iter().chain(WRAP_ATOMS.iter()) {
+            out.push((format!("typed-hole:{tname}:{aname}"), program(&obj.replace("{H}", atext), &cons.replace("{H}", atext), &extra.replace("{H}", atext))));
+        }
+    }
+    for (tname, obj, cons) in SCOPED_TEMPLATES.iter() {
+        for (aname, atext) in ATOMS.iter().chain(SCOPED_ATOMS.iter()) {
+            out.push((format!("typed-hole:{tname}:{aname}"), program(&obj.replace("{H}", atext), &cons.replace("{H}", atext), "")));
+        }
+    }
+    for (sname, obj, cons, extra) in ORDER_SHAPES.iter() {
+        for (ename, etext) in ORDER_ITERS.iter() {
+            out.push((format!("binding-order:{sname}:{ename}"), program(&obj.replace("{E}", etext), &cons.replace("{E}", etext), &extra.replace("{E}", etext))));
+        }
+    }
+    for (name, call) in ARITY.iter() {
+        out.push((format!("arity:{name}"), program("min x", &format!("x >= {call}"), "")));
+    }
+    out
+}
+
 fn program(objective: &str, constraints: &str, extra: &str) -> String {
     let (lets, defs): (String, String) = if let Some(rest) = extra.strip_prefix("LET ") { (format!("    let {rest}"), String::new()) } else { (String::new(), extra.to_string()) };
     format!("{objective}\ns.t.\n    {constraints}\n{PRELUDE_WHERE}{lets}{PRELUDE_DEFINE}{defs}")
@@ -301,6 +329,7 @@ fn atom_class(atom: &str) -> String {
             "edges-call" | "enumerate-call" => "tuple-iterable",
             "nodes-call" => "node-iterable",
             "undeclared" | "undeclared-compound" => "undeclared",
+            "constant-block" | "constant-scoped-block" => "block-over-constants",
             other => other,
         })
         .collect::<Vec<_>>()
@@ -330,7 +359,7 @@ fn offending_class(kind: &str, atoms: &str) -> String {
     let chosen = if kind.starts_with("Other(domain variable") || kind.starts_with("UndeclaredVariable") {
         pick(&["domain-variable", "undeclared"])
     } else if kind.starts_with("WrongArgument") {
-        pick(&["non-integer-number", "negative-integer", "string-or-node", "boolean"])
+        pick(&["block-over-constants", "non-integer-number", "negative-integer", "string-or-node", "boolean"])
     } else {
         None
     };
@@ -384,7 +413,7 @@ fn check_program(src: &str, template: &str, atoms: &str, l: &mut Local) {
 pub fn run(mut run: Run) -> ! {
     crate::core::silence_panics();
     let quick = run.quick();
-    run.rule = format!("every (template x atom) program: {} single-hole templates covering every operand, block, scoped-block body, iterator, range end, destructuring, index, function-argument, declaration-bound, declaration-iterator, constraint-iterator, constraint-name and constant position x 30 typed atoms (numbers, booleans, strings, arrays of every element kind, graph, constants, calls, domain variables, undeclared names); 8 scoped templates x (30 + 6 scoped atoms: node, edge, tuple, iterator, element, shadowed constant); the single-hole templates again wrapped in an iteration scope x 10 iteration-only atoms (node, edge, edge endpoint, edge weight, enumerate tuple, string element, boolean element, matrix row, range variable, array element); 22 wrong-arity calls; 12 two-hole templates x all atom pairs; 14 scoping shapes (every scoped block kind, constraint and declaration iterations, nested scopes) x 17 iterator expressions that mention the variable of a later set, of their own set, of an earlier set or of no set; thorough: the two-hole templates inside the iteration scope x all pairs of the 40 plain and iteration-only atoms; distinct = accepted program texts; non-trivial = accepted by the type checker", TEMPLATES.len());
+    run.rule = format!("every (template x atom) program: {} single-hole templates covering every operand, block, scoped-block body, iterator, range end, destructuring, index, function-argument, declaration-bound, declaration-iterator, constraint-iterator, constraint-name and constant position x 35 typed atoms (numbers, booleans, strings, arrays of every element kind, graph, constants, calls, domain variables, undeclared names, blocks over constants); 8 scoped templates x (35 + 6 scoped atoms: node, edge, tuple, iterator, element, shadowed constant); the single-hole templates again wrapped in an iteration scope x 10 iteration-only atoms (node, edge, edge endpoint, edge weight, enumerate tuple, string element, boolean element, matrix row, range variable, array element); 22 wrong-arity calls; 12 two-hole templates x all atom pairs; 14 scoping shapes (every scoped block kind, constraint and declaration iterations, nested scopes) x 17 iterator expressions that mention the variable of a later set, of their own set, of an earlier set or of no set; thorough: the two-hole templates inside the iteration scope x all pairs of the 40 plain and iteration-only atoms; distinct = accepted program texts; non-trivial = accepted by the type checker", TEMPLATES.len());
     run.assume("type-class error kinds: UndeclaredVariable, WrongArgument, WrongExpectedArgument, WrongFunctionSignature, WrongNumberOfArguments, NonExistentFunction, Unspreadable, SpreadError, UnOpError, BinOpError unless both operands are numeric kinds (division by zero / overflow), Other(domain variable used as a value), Other(block arity)");
     run.family("T1-single-hole", (TEMPLATES.len() * ATOMS.len()) as u64, |i, l| {
         let (tname, obj, cons, extra) = TEMPLATES[i as usize / ATOMS.len()];
